@@ -144,6 +144,7 @@ pub fn oracle(c: &SeqCase, obs: &mut Obs, counted: bool) -> Verdict {
 }
 
 const ATOMS: &[&str] = &["a", "b", "/a", "/b", "/z", "\u{1}t", "a x='1'"];
+const ATOMS2: &[&str] = &["a", "b", "/a c='end of a'", "/b\n * ", "/a", "\u{1}t", " /b "];
 
 fn gen_long(t: &mut Tape) -> SeqCase {
     let pairs = [("<", ">"), ("<!-- <", "> -->"), ("[[", "]]"), ("「", "」")];
@@ -155,13 +156,75 @@ fn gen_long(t: &mut Tape) -> SeqCase {
         let nm = t.s(&names);
         pieces.push(match t.below(12) {
             0..=3 => format!("{}{}{}", if t.chance(15) { " " } else { "" }, nm, t.s(&["", "", " x='1'", " skip", " to=\"2020-01-01 00:00:00\" unwrap-block", "\nname='a'"])),
-            4..=7 => format!("/{}{}", nm, if t.chance(15) { " " } else { "" }),
+            4..=7 => format!("/{}{}", nm, t.s(&["", "", "", " ", " c='end'", "\n * ", " x=\"1\" y"])),
             8 => "/zz".to_string(),
             9 => t.s(&[" ", "='x'", "\"q\"", "  "]).to_string(),
             _ => format!("\u{1}{}", t.s(&["t", " ", "\n", "x y", "é"])),
         });
     }
     SeqCase { pieces, ds: ds.into(), de: de.into() }
+}
+
+fn run_exhaustive(ctx: &mut Ctx, sub: &'static str, atoms: &'static [&'static str], l: usize) {
+    // units: first two atoms
+    let mut units = vec![];
+    for a in 0..atoms.len() {
+        for b in 0..atoms.len() {
+            units.push((a, b));
+        }
+    }
+    let total: u64 = (0..=l as u32).map(|k| (atoms.len() as u64).pow(k)).sum();
+    ctx.exhaustive(sub, &format!("all {total} sequences of length <= {l} over the {} atoms {:?}, delimiters '<' '>'", atoms.len(), atoms), units, move |&(a, b), obs| {
+        let mut fail = None;
+        let mut idx: Vec<usize> = vec![a, b];
+        // sequences of length 0 and 1 are covered by unit (0,0) additionally
+        let mut run = |idx: &[usize], obs: &mut Obs| -> bool {
+            let c = SeqCase { pieces: idx.iter().map(|&i| atoms[i].to_string()).collect(), ds: "<".into(), de: ">".into() };
+            obs.eval();
+            if oracle(&c, obs, true).is_fail() {
+                let quiet = |pieces: &[String]| {
+                    let mut st = Stats::new();
+                    let mut o = Obs { st: &mut st, frozen: true };
+                    oracle(&SeqCase { pieces: pieces.to_vec(), ds: "<".into(), de: ">".into() }, &mut o, true)
+                };
+                let min = minimize_vec(&c.pieces, |p| quiet(p).is_fail());
+                if let Verdict::Fail(m) = quiet(&min) {
+                    fail = Some(fail_case(sub, &SeqCase { pieces: min, ds: "<".into(), de: ">".into() }, m));
+                }
+                return false;
+            }
+            true
+        };
+        if a == 0 && b == 0 {
+            if !run(&[], obs) {
+                return fail;
+            }
+            for i in 0..atoms.len() {
+                if !run(&[i], obs) {
+                    return fail;
+                }
+            }
+        }
+        fn rec(idx: &mut Vec<usize>, l: usize, n_atoms: usize, obs: &mut Obs, run: &mut dyn FnMut(&[usize], &mut Obs) -> bool) -> bool {
+            if !run(idx, obs) {
+                return false;
+            }
+            if idx.len() == l {
+                return true;
+            }
+            for i in 0..n_atoms {
+                idx.push(i);
+                let ok = rec(idx, l, n_atoms, obs, run);
+                idx.pop();
+                if !ok {
+                    return false;
+                }
+            }
+            true
+        }
+        rec(&mut idx, l, atoms.len(), obs, &mut run);
+        fail
+    });
 }
 
 pub fn check(ctx: &mut Ctx) {
@@ -172,65 +235,10 @@ pub fn check(ctx: &mut Ctx) {
     }
     ctx.replay_corpus(replay);
     let l = ctx.tier.pick(8usize, 9usize);
-    // units: first two atoms
-    let mut units = vec![];
-    for a in 0..ATOMS.len() {
-        for b in 0..ATOMS.len() {
-            units.push((a, b));
-        }
-    }
-    let total: u64 = (0..=l as u32).map(|k| 7u64.pow(k)).sum();
-    ctx.exhaustive("sequences", &format!("all {total} sequences of length <= {l} over 7 atoms, delimiters '<' '>'"), units, move |&(a, b), obs| {
-        let mut fail = None;
-        let mut idx: Vec<usize> = vec![a, b];
-        // sequences of length 0 and 1 are covered by unit (0,0) additionally
-        let mut run = |idx: &[usize], obs: &mut Obs| -> bool {
-            let c = SeqCase { pieces: idx.iter().map(|&i| ATOMS[i].to_string()).collect(), ds: "<".into(), de: ">".into() };
-            obs.eval();
-            if oracle(&c, obs, true).is_fail() {
-                let quiet = |pieces: &[String]| {
-                    let mut st = Stats::new();
-                    let mut o = Obs { st: &mut st, frozen: true };
-                    oracle(&SeqCase { pieces: pieces.to_vec(), ds: "<".into(), de: ">".into() }, &mut o, true)
-                };
-                let min = minimize_vec(&c.pieces, |p| quiet(p).is_fail());
-                if let Verdict::Fail(m) = quiet(&min) {
-                    fail = Some(fail_case("sequences", &SeqCase { pieces: min, ds: "<".into(), de: ">".into() }, m));
-                }
-                return false;
-            }
-            true
-        };
-        if a == 0 && b == 0 {
-            if !run(&[], obs) {
-                return fail;
-            }
-            for i in 0..ATOMS.len() {
-                if !run(&[i], obs) {
-                    return fail;
-                }
-            }
-        }
-        fn rec(idx: &mut Vec<usize>, l: usize, obs: &mut Obs, run: &mut dyn FnMut(&[usize], &mut Obs) -> bool) -> bool {
-            if !run(idx, obs) {
-                return false;
-            }
-            if idx.len() == l {
-                return true;
-            }
-            for i in 0..ATOMS.len() {
-                idx.push(i);
-                let ok = rec(idx, l, obs, run);
-                idx.pop();
-                if !ok {
-                    return false;
-                }
-            }
-            true
-        }
-        rec(&mut idx, l, obs, &mut run);
-        fail
-    });
+    run_exhaustive(ctx, "sequences", ATOMS, l);
+    // closing tags that carry attribute-like content (the comment attribute, the README's multi-line layout): they close all the same
+    let l2 = ctx.tier.pick(7usize, 8usize);
+    run_exhaustive(ctx, "closers-with-attributes", ATOMS2, l2);
     ctx.random("long-sequences", 160, 600_000, 30_000_000, gen_long, |c, obs| oracle(c, obs, false));
 }
 
